@@ -380,7 +380,8 @@ def check_overlays(prog: Program, res: Result) -> None:
 def check_from_graphs_stereo(prog: Program, res: Result, tier: str) -> None:
     res.rule("R-FG-TABLE", "for every scenario of (reactant, product, TS) "
              "descriptors at one centre (absent or one of three distinct "
-             "descriptors: 64 atom and 16 bond scenarios) the entries "
+             "descriptors: 64 atom scenarios; 25 bond scenarios over the bond's "
+             "role: unchanged 16, formed 4, broken 4, fleeting 1) the entries "
              "recorded by from_graphs satisfy overlay(static, broken) = "
              "reactant descriptor, overlay(static, formed) = product "
              "descriptor, and a TS descriptor differing from both is "
@@ -395,30 +396,71 @@ def check_from_graphs_stereo(prog: Program, res: Result, tier: str) -> None:
              if isinstance(r_, ast.Return) and isinstance(r_.value, ast.Name)}
     if len(rets_) == 1:
         fi = rename_locals(fi, {rets_.pop(): "scrg"})
+    BOND_ITERS = ("scrg.bonds", "scrg.bonds_with_attributes.items()",
+                  "scrg._bond_attrs.items()", "scrg._bond_attrs")
     table = {}
     for n in ast.walk(fi.node):
         if isinstance(n, ast.For) and isinstance(n.target, ast.Name):
             if norm(n.iter) == "scrg.atoms":
                 table[n.target.id] = "atom"
-            elif norm(n.iter) == "scrg.bonds":
+            elif norm(n.iter) in BOND_ITERS:
                 table[n.target.id] = "bond"
+        elif isinstance(n, ast.For) and isinstance(n.target, ast.Tuple) and \
+                norm(n.iter) in BOND_ITERS and len(n.target.elts) == 2 and \
+                all(isinstance(x, ast.Name) for x in n.target.elts):
+            table[n.target.elts[0].id] = "bond"
+            table[n.target.elts[1].id] = "battrs"
     fi = rename_locals(fi, table)
     vals = (None, "A", "B", "C")
     for kind in ("atom", "bond"):
         loops = [n for n in ast.walk(fi.node) if isinstance(n, ast.For)
-                 and norm(n.iter) == ("scrg.atoms" if kind == "atom"
-                                      else "scrg.bonds")]
+                 and (norm(n.iter) == "scrg.atoms" if kind == "atom"
+                      else norm(n.iter) in BOND_ITERS)]
         if not loops:
             raise AnalysisError(f"from_graphs: {kind} loop not found")
         body = loops[0].body
-        tsv = vals if kind == "atom" else (None,)
-        for r, p, ts in itertools.product(vals, vals, tsv):
+        if kind == "atom":
+            scen = [(r, p, ts, None) for r, p, ts in
+                    itertools.product(vals, vals, vals)]
+        else:
+            # the bond's role decides on which sides it exists at all
+            scen = [(r, p, None, None) for r, p in
+                    itertools.product(vals, vals)]
+            scen += [(None, p, None, "FORMED") for p in vals]
+            scen += [(r, None, None, "BROKEN") for r in vals]
+            scen += [(None, None, None, "FLEETING")]
+        for r, p, ts, role in scen:
+            raised: list[str] = []
+
             def oracle(e, pe, env, r=r, p=p, ts=ts):
                 v = oracle0(e, pe, env, r, p, ts)
                 return NONE_VALUE if v == "<None>" else v
 
-            def oracle0(e, pe, env, r, p, ts):
+            def oracle0(e, pe, env, r, p, ts, role=role, raised=raised):
                 t = norm(e)
+                if kind == "bond":
+                    in_r = role in (None, "BROKEN")
+                    in_p = role in (None, "FORMED")
+                    if t in ("'reaction' in battrs",
+                             "battrs.get('reaction') is not None",
+                             "battrs.get('reaction', None) is not None"):
+                        return role is not None
+                    if t in ("'reaction' not in battrs",
+                             "battrs.get('reaction') is None",
+                             "battrs.get('reaction', None) is None"):
+                        return role is None
+                    if t in ("bond in reactant_graph.bonds",
+                             "reactant_graph.has_bond(*bond)"):
+                        return in_r
+                    if t in ("bond in product_graph.bonds",
+                             "product_graph.has_bond(*bond)"):
+                        return in_p
+                    if t == "reactant_graph.get_bond_stereo(bond)" and \
+                            not in_r:
+                        raised.append(t)
+                    if t == "product_graph.get_bond_stereo(bond)" and \
+                            not in_p:
+                        raised.append(t)
                 r, p, ts = (("<None>" if x is None else x) for x in (r, p, ts))
                 if kind == "atom":
                     if t == "reactant_graph.get_atom_stereo(atom)":
@@ -434,13 +476,18 @@ def check_from_graphs_stereo(prog: Program, res: Result, tier: str) -> None:
                         return r
                     if t == "product_graph.get_bond_stereo(bond)":
                         return p
-                    if t in ("bond in reactant_graph.bonds",
-                             "bond in product_graph.bonds"):
-                        return True
                 return None
             pe = PE(as_func(body), {}, oracle=oracle)
             outs = pe.run()
-            inst = f"from_graphs[{kind}] r={r} p={p} ts={ts}"
+            inst = f"from_graphs[{kind}] r={r} p={p} ts={ts}" + (
+                f" role={role}" if role else "")
+            if raised:
+                res.bad("R-FG-TABLE", f"{inst}: lookup of an absent bond",
+                        fi.loc(loops[0]), f"{inst}: `{raised[0]}` is "
+                        "evaluated for a bond that does not exist on that "
+                        "side (get_bond_stereo raises ValueError)",
+                        instance=inst)
+                continue
             if len(outs) != 1:
                 res.error(f"R-FG-TABLE {inst}: {len(outs)} paths (undecided "
                           "tests)")
@@ -522,7 +569,67 @@ def check_from_graphs_stereo(prog: Program, res: Result, tier: str) -> None:
     res.need("R-FG-KW", n, 10, "keyword arguments")
 
 
+def check_reverse_total(prog: Program, res: Result) -> None:
+    res.rule("R-REVERSE-TOTAL", "reverse_reaction has no exit that skips a "
+             "swap loop: every return lies behind the loops over the bond "
+             "roles / the stereo change tables, or its condition is the "
+             "emptiness of exactly the tables the skipped loops range over")
+    for K, marks in (("CondensedReactionGraph", ("reaction",)),
+                     ("StereoCondensedReactionGraph", ("stereo_change",))):
+        rv = prog.classes[K].methods.get("reverse_reaction")
+        if rv is None:
+            continue
+        body = rv.node.body
+        loops = [(i, st) for i, st in enumerate(body)
+                 if isinstance(st, ast.For)
+                 and any(m in utext(st) for m in marks)]
+        inst = f"{K}.reverse_reaction: no exit skips a swap loop"
+        if not loops:
+            res.unrecognised("R-REVERSE-TOTAL", inst, rv.loc(),
+                             "swap loops not found at statement level")
+            continue
+        last = loops[-1][0]
+        bad = unk = None
+        for i, st in enumerate(body[:last]):
+            for n in ast.walk(st):
+                if not isinstance(n, (ast.Return, ast.Raise)) or \
+                        isinstance(n, ast.Raise):
+                    continue
+                # the guard(s) this return sits under
+                tests = []
+                p = getattr(n, "_parent", None)
+                while p is not None and p is not rv.node:
+                    if isinstance(p, ast.If):
+                        tests.append(p.test)
+                    p = getattr(p, "_parent", None)
+                skipped = [l for j, l in loops if j > i]
+                tables = {norm(l.iter).split(".items")[0] for l in skipped}
+                ttxt = " and ".join(norm(t, 200) for t in tests)
+                empties = set(re.findall(r"not ([\w.]+)", ttxt))
+                if tests and tables and tables <= empties and \
+                        " or " not in ttxt:
+                    continue            # returns only when nothing to swap
+                if any(m in ttxt for m in marks) or not tests:
+                    unk = (n, ttxt)
+                else:
+                    bad = (n, ttxt, tables)
+        if bad:
+            n, ttxt, tables = bad
+            res.bad("R-REVERSE-TOTAL", f"{K}.reverse_reaction early exit",
+                    rv.loc(n), f"{inst}: `return` under `{ttxt}` leaves "
+                    f"before the loop(s) over {sorted(tables)}; the condition "
+                    "says nothing about those tables, so for such inputs the "
+                    "stereo changes / roles keep their forward direction",
+                    instance=inst)
+        elif unk:
+            res.unrecognised("R-REVERSE-TOTAL", inst, rv.loc(unk[0]),
+                             f"early exit under `{unk[1]}` not understood")
+        else:
+            res.ok("R-REVERSE-TOTAL", inst, rv.loc())
+
+
 def run(prog: Program, res: Result, tier: str) -> None:
+    check_reverse_total(prog, res)
     res.trusted += ["sa/pe.py constant folding; descriptors modelled as "
                     "tokens that compare by identity of the arrangement",
                     "setter semantics: set_*_stereo_change replaces the entry"]
